@@ -1197,6 +1197,36 @@ func runC03R5(c *core.Ctx, pr *pipeRoles) {
 				}
 			}
 			c.Check(g, "R5", name+"/range-guard", p.Pos(fn.Pos()), "position compared with size before walking", "ContextAt walks without comparing the position with the size")
+			// and the comparison is the right one: where a context is returned, position >= size is known to be false
+			// (position == size would walk onto the tail sentinel and hand out a context that is not a handler)
+			if g {
+				c.Instance("R5")
+				strict := true
+				core.AllInstrs(fn, func(in ssa.Instruction) {
+					ret, ok := in.(*ssa.Return)
+					if !ok || len(ret.Results) != 1 || core.IsNilConst(core.Unwrap(ret.Results[0])) {
+						return
+					}
+					if k, isC := core.Unwrap(ret.Results[0]).(*ssa.Const); isC && k.IsNil() {
+						return
+					}
+					known := false
+					for _, cm := range falseAt(p, ret) {
+						fx, _ := core.FieldOf(stripConv(cm.X))
+						fy, _ := core.FieldOf(stripConv(cm.Y))
+						if cm.Op == token.GEQ && core.ParamOf(fn, stripConv(cm.X)) == 1 && fy == pr.size {
+							known = true
+						}
+						if cm.Op == token.LEQ && fx == pr.size && core.ParamOf(fn, stripConv(cm.Y)) == 1 {
+							known = true
+						}
+					}
+					if !known {
+						strict = false
+					}
+				})
+				c.Check(strict, "R5", name+"/range-guard-strict", p.Pos(fn.Pos()), "a context is returned only for position < size", "ContextAt can return a context for position == size (or beyond): the bound test admits the position one past the last handler, the walk ends on the tail sentinel")
+			}
 		}
 		if v.name != "ContextAt" {
 			// found-branch returns the counter
